@@ -5,6 +5,9 @@
 #[path = "../../corpus/basic.rs"]
 pub mod basic;
 
+#[path = "../../corpus/wide.rs"]
+pub mod wide;
+
 #[cfg(kani)]
 mod h {
     use crate::basic::ct::sv::{
@@ -291,4 +294,68 @@ mod h {
     }, query);
 
     // @PLAYBACK h@
+}
+
+#[cfg(kani)]
+mod hw {
+    use crate::wide::ifw::sv::IfwExecMsg;
+    use crate::wide::wd::sv::{ContractExecMsg, ExecMsg, InstantiateMsg, QueryMsg, SudoMsg};
+    use crate::wide::wd::Wd;
+    use crate::wide::WIDE;
+    use support::call::any_in;
+    use support::stubs::{bt_disabled, fmt_stub};
+
+    fn seen(id: u32, v: &[u64; 11], mask: u64) {
+        let (got_id, got) = unsafe { WIDE };
+        assert!(got_id == id, "the handler the variant was generated from");
+        let mut k = 0;
+        while k < 11 {
+            assert!(got[k] == v[k] & mask, "every field value reaches the parameter of the same name (11 same-typed parameters)");
+            k += 1;
+        }
+    }
+
+    /// Handlers with eleven same-typed parameters: positions 10 and 11 have two-digit indices.
+    #[kani::proof]
+    #[kani::unwind(13)]
+    #[kani::stub(std::backtrace::Backtrace::capture, bt_disabled)]
+    #[kani::stub(alloc::fmt::format, fmt_stub)]
+    fn wide_dispatch() {
+        let i = any_in();
+        let v: [u64; 11] = kani::any();
+        let sel: u8 = kani::any();
+        kani::assume(sel < 5);
+        let mut w = i.world();
+        match sel {
+            0 => {
+                let r = ExecMsg::WideE { p1: v[0], p2: v[1], p3: v[2], p4: v[3], p5: v[4], p6: v[5], p7: v[6], p8: v[7], p9: v[8], p10: v[9], p11: v[10] }.dispatch(&Wd::new(), (w.deps_mut(), i.env(), i.info()));
+                seen(1000, &v, u64::MAX);
+                core::mem::forget(r);
+            }
+            1 => {
+                let r = QueryMsg::WideQ { p1: v[0] as u32, p2: v[1] as u32, p3: v[2] as u32, p4: v[3] as u32, p5: v[4] as u32, p6: v[5] as u32, p7: v[6] as u32, p8: v[7] as u32, p9: v[8] as u32, p10: v[9] as u32, p11: v[10] as u32 }.dispatch(&Wd::new(), (w.deps(), i.env()));
+                seen(1001, &v, u32::MAX as u64);
+                core::mem::forget(r);
+            }
+            2 => {
+                let r = SudoMsg::WideS { p1: v[0], p2: v[1], p3: v[2], p4: v[3], p5: v[4], p6: v[5], p7: v[6], p8: v[7], p9: v[8], p10: v[9], p11: v[10] }.dispatch(&Wd::new(), (w.deps_mut(), i.env()));
+                seen(1002, &v, u64::MAX);
+                core::mem::forget(r);
+            }
+            3 => {
+                let r = InstantiateMsg { p1: v[0], p2: v[1], p3: v[2], p4: v[3], p5: v[4], p6: v[5], p7: v[6], p8: v[7], p9: v[8], p10: v[9], p11: v[10] }.dispatch(&Wd::new(), (w.deps_mut(), i.env(), i.info()));
+                seen(1003, &v, u64::MAX);
+                core::mem::forget(r);
+            }
+            _ => {
+                let r = ContractExecMsg::Ifw(IfwExecMsg::Iw { p1: v[0], p2: v[1], p3: v[2], p4: v[3], p5: v[4], p6: v[5], p7: v[6], p8: v[7], p9: v[8], p10: v[9], p11: v[10] }).dispatch(&Wd::new(), (w.deps_mut(), i.env(), i.info()));
+                seen(1010, &v, u64::MAX);
+                core::mem::forget(r);
+            }
+        }
+        kani::cover!(sel == 1 && v[1] != v[9], "query with different 2nd and 10th values");
+        kani::cover!(sel == 4, "interface handler");
+    }
+
+    // @PLAYBACK hw@
 }
